@@ -369,6 +369,7 @@ fn run_property(o: &Opts, out: &mut dyn Write) -> i32 {
     cases.extend(props::straddle_cases(&mut rng, prop, &o.tier));
     cases.extend(props::ctl_cases(&mut rng, prop, &o.tier));
     cases.extend(props::long_cases(&mut rng, prop, &o.tier));
+    cases.extend(props::rom_cases(&mut rng, prop, &o.tier));
     if std::env::var("VERIF_NO_HIST").is_err() {
         cases.extend(props::hist_for(prop, &mut rng, &o.tier));
     }
